@@ -65,6 +65,9 @@ CLAIMED = {
  "C03": ("extraction of the repository's grammar and provider tables from SSA, relation checks against the precedence classes of the language reference, shape rules on the Pratt functions, closure matching on type-checked syntax, failure-edge analysis of operand assertions, errpath for error propagation",
          "Precedence and associativity are entirely a property of one table and three expressions (the Pratt loop is generic): decided exhaustively over the table (68 entries, 6 classes) and the shapes of run/ldInfix/ndPrefix. The operator table is matched operator by operator (25 closures) against the reference; "
          "operand assertions are comma-ok with the matching kind error naming the same operand; evaluation errors propagate on every path. Float results, number lexing and layout are values and not decided.", "3/C03"),
+ "C08": ("table agreement by partial evaluation: the printer's bracket guard is interpreted (pure SSA evaluator) over every (parent operator, child operator, position) of the extracted grammar and compared with the closed-form needs-brackets relation of the Pratt parser; exhaustiveness of templates vs the shape table; errpath verify-before-write rule",
+         "Decides exhaustively over the grammar table (≈700 operator combinations in 6 classes) that parentheses are emitted wherever re-parsing needs them; that every producible node kind/arity has a template or special case; that string rendering consults the raw/interpolating flag; that the format tool writes only text it re-parsed and compared. "
+         "Two classes violate the rule today and are pinned by the suite (right operand of equal binding; raw strings re-quoted): known findings. Idempotence, comments and layout are not decided.", "3/C08"),
 }
 
 NOT_YET = "check not built yet in this session (see DESIGN.md section 3 for the planned static rule)"
